@@ -160,3 +160,154 @@ func VerifC06_ErrorFcall() {
 type vTextErr struct{ s string }
 
 func (e vTextErr) Error() string { return e.s }
+
+// ---- concurrent part: the real serve loop -------------------------------------
+
+// Two pipelined requests with symbolic tags (equal or not); handlers finish in
+// every order; results are messages, 9P errors or plain errors.
+func vC06Serve(k int) {
+	s := newVSrv(k)
+	tags := make([]Tag, k)
+	marks := make([]uint64, k)
+	kinds := make([]int, k)
+	pay := make([]uint32, k)
+	texts := make([]string, k)
+	dup := make([]bool, k)
+	for i := 0; i < k; i++ {
+		tags[i] = Tag(ndU16("tag"))
+		marks[i] = ndU64("marker")
+		kinds[i] = ndChoice("reskind", 3)
+		pay[i] = ndU32("payload")
+		texts[i] = ndString("text", 2)
+	}
+	script := ndChoice("script", 4)
+	if script == 2 {
+		// all requests (distinct tags), all handlers released before any reply
+		// is collected: completions race with each other and with the write loop
+		for i := 0; i < k; i++ {
+			for j := 0; j < i; j++ {
+				vAssume(tags[i] != tags[j])
+			}
+			s.ch.fromPeer <- vReq(i, tags[i], marks[i])
+		}
+		for i := 0; i < k; i++ {
+			<-s.h.started
+		}
+		for i := 0; i < k; i++ {
+			s.h.release[i] <- vResFor(kinds[i], pay[i], texts[i])
+		}
+		seen := make([]bool, k)
+		for n := 0; n < k; n++ {
+			resp := <-s.ch.toPeer
+			m := -1
+			for i := 0; i < k; i++ {
+				if resp.Tag == tags[i] {
+					m = i
+				}
+			}
+			vAssert(m >= 0, "C06: every reply carries the tag of a request")
+			if m >= 0 {
+				vAssert(!seen[m], "C06: exactly one reply per request")
+				seen[m] = true
+				vCheckResp(resp, tags[m], kinds[m], pay[m], texts[m], "racing completions")
+			}
+		}
+		vReach("c06.serve.race")
+	} else if script == 3 {
+		// request 1 arrives while request 0 is completing: in the window between
+		// completion and reply only "exactly one reply each" is demanded when the
+		// tags are equal
+		s.ch.fromPeer <- vReq(0, tags[0], marks[0])
+		<-s.h.started
+		s.h.release[0] <- vResFor(kinds[0], pay[0], texts[0])
+		// environment goroutine collects replies
+		got := make(chan *Fcall, 2*k)
+		go func() {
+			for {
+				got <- <-s.ch.toPeer
+			}
+		}()
+		s.ch.fromPeer <- vReq(1, tags[1], marks[1])
+		vDrain()
+		if s.h.invoked[1] == 1 && !s.h.returned[1] {
+			s.h.release[1] <- vResFor(kinds[1], pay[1], texts[1])
+		}
+		vDrain()
+		vAssert(len(got) == 2, "C06: each of the two requests receives exactly one reply")
+		r0 := <-got
+		r1 := <-got
+		if tags[0] != tags[1] {
+			a, b := r0, r1
+			if r0.Tag != tags[0] {
+				a, b = r1, r0
+			}
+			vCheckResp(a, tags[0], kinds[0], pay[0], texts[0], "overlapping, first")
+			vCheckResp(b, tags[1], kinds[1], pay[1], texts[1], "overlapping, second")
+			vAssert(s.h.invoked[1] == 1, "C06: a request with a fresh tag is dispatched")
+		} else {
+			vAssert(vAnd(r0.Tag == tags[0], r1.Tag == tags[0]), "C06: replies carry the requests' tag")
+		}
+		vReach("c06.serve.window")
+		return
+	} else if script == 0 {
+		// pipelined: all requests first
+		for i := 0; i < k; i++ {
+			for j := 0; j < i; j++ {
+				if !dup[j] && tags[i] == tags[j] {
+					dup[i] = true
+				}
+			}
+			s.ch.fromPeer <- vReq(i, tags[i], marks[i])
+			if dup[i] {
+				// the original is certainly outstanding (its handler is blocked)
+				resp := <-s.ch.toPeer
+				vAssert(resp.Tag == tags[i], "C06: duplicate-tag error carries the tag")
+				re, ok := resp.Message.(MessageRerror)
+				vAssert(ok && re == ErrDuptag.(MessageRerror), "C06: a request reusing an outstanding tag is answered with duplicate tag")
+				vReach("c06.serve.dup")
+			} else {
+				got := <-s.h.started
+				vAssert(got == i, "C06: requests are dispatched in arrival order")
+			}
+		}
+		// release in every order
+		left := []int{}
+		for i := 0; i < k; i++ {
+			if !dup[i] {
+				left = append(left, i)
+			}
+		}
+		for len(left) > 0 {
+			p := ndChoice("release", len(left))
+			i := left[p]
+			left = append(left[:p:p], left[p+1:]...)
+			s.h.release[i] <- vResFor(kinds[i], pay[i], texts[i])
+			resp := <-s.ch.toPeer
+			vCheckResp(resp, tags[i], kinds[i], pay[i], texts[i], "pipelined")
+		}
+	} else {
+		// one at a time: a tag may be reused once its reply has been observed
+		for i := 0; i < k; i++ {
+			s.ch.fromPeer <- vReq(i, tags[i], marks[i])
+			got := <-s.h.started
+			vAssert(got == i, "C06: the request is dispatched")
+			s.h.release[i] <- vResFor(kinds[i], pay[i], texts[i])
+			resp := <-s.ch.toPeer
+			vCheckResp(resp, tags[i], kinds[i], pay[i], texts[i], "sequential, tags may repeat")
+		}
+		vReach("c06.serve.seq")
+	}
+	for i := 0; i < k; i++ {
+		if dup[i] {
+			vAssert(s.h.invoked[i] == 0, "C06: a duplicate-tag request is not dispatched")
+		} else {
+			vAssert(s.h.invoked[i] == 1, "C06: the handler is invoked exactly once per request")
+			vAssert(s.h.seenOff[i] == marks[i], "C06: the handler sees the message that was sent")
+		}
+	}
+	s.vNoMoreReplies("C06: exactly one reply per request (a further frame was written)")
+	vReach("c06.serve")
+}
+
+func VerifC06_ServeQuick()    { vC06Serve(2) }
+func VerifC06_ServeThorough() { vC06Serve(3) }
